@@ -53,6 +53,7 @@ func vIsConcrete(s string) bool
 func vRunSpawned() int
 func vSpawnCount() int
 func vSendCount() int
+func vLocksHeldNow() int
 func vObserveInt(name string, x int)
 func vObserveBool(name string, x bool)
 func vObserveBytes(name string, b []byte)
@@ -158,6 +159,7 @@ func vIsConcrete(s string) bool { return true }
 func vRunSpawned() int  { return 0 }
 func vSpawnCount() int  { return 0 }
 func vSendCount() int   { return 0 }
+func vLocksHeldNow() int { return 0 }
 func vObsKey(name string) string {
 	k := vObsCounts[name]
 	vObsCounts[name] = k + 1
@@ -200,6 +202,20 @@ func vTagMap(x interface{}) map[string]interface{} {
 		}
 		if key == "-" {
 			continue
+		}
+		if strings.Contains(t.Field(i).Tag.Get("yaml"), ",omitempty") {
+			f := v.Field(i)
+			switch f.Kind() {
+			case reflect.Map, reflect.Slice, reflect.String:
+				if f.Len() == 0 {
+					continue
+				}
+			case reflect.Array, reflect.Struct:
+			default:
+				if f.IsZero() {
+					continue
+				}
+			}
 		}
 		m[key] = v.Field(i).Interface()
 	}
